@@ -212,6 +212,16 @@ func (t *ZeroAllocTokenizer) GetStringConstant(s string) string {
 	return s
 }
 
+// escapedAt reports whether the byte at pos is escaped: it is preceded by an odd number of
+// backslashes (an even number are escaped backslashes, e.g. the literal 'a\\\\' ends at its second quote)
+func escapedAt(s string, pos int) bool {
+	n := 0
+	for i := pos - 1; i >= 0 && s[i] == '\\'; i-- {
+		n++
+	}
+	return n%2 == 1
+}
+
 // TokenizeExpression tokenizes an expression string with zero allocations
 func (t *ZeroAllocTokenizer) TokenizeExpression(expr string) []Token {
 	// Save current position and set new source context
@@ -231,7 +241,7 @@ func (t *ZeroAllocTokenizer) TokenizeExpression(expr string) []Token {
 		c := t.source[t.position]
 
 		// Handle string literals
-		if (c == '"' || c == '\'') && (t.position == 0 || t.source[t.position-1] != '\\') {
+		if (c == '"' || c == '\'') && !escapedAt(t.source, t.position) {
 			if inString && c == stringDelimiter {
 				// End of string, add the string token
 				value := t.source[stringStart:t.position]
@@ -893,7 +903,7 @@ func (t *ZeroAllocTokenizer) tokenizeObjectContents(content string) {
 		c := content[i]
 
 		// Handle string literals
-		if (c == '"' || c == '\'') && (i == 0 || content[i-1] != '\\') {
+		if (c == '"' || c == '\'') && !escapedAt(content, i) {
 			if inString && c == stringDelim {
 				inString = false
 			} else if !inString {
